@@ -162,6 +162,10 @@ type matchCfg struct {
 	Sort     bool  `json:"sort"`
 	Tac      bool  `json:"tac"`
 	Scheme   int   `json:"scheme"` // 0 default 1 path 2 history
+
+	// forcePos: oracle computes rank keys from accurate match offsets (positions
+	// always requested) instead of replicating core.go's withPos derivation
+	forcePos bool
 }
 
 // install sets the process-wide matching state the way option post-processing does.
@@ -226,6 +230,9 @@ func (m matchCfg) derive() (forward, withPos bool) {
 
 func (m matchCfg) pattern(cache *ChunkCache, pc map[string]*Pattern, rev revision, q string, cacheable bool) *Pattern {
 	forward, withPos := m.derive()
+	if m.forcePos {
+		withPos = true
+	}
 	fa := algo.FuzzyMatchV2
 	if m.AlgoV1 {
 		fa = algo.FuzzyMatchV1
@@ -272,6 +279,9 @@ func freshFilter(items []frozenItem, q string, m matchCfg) []oracleRes {
 		}
 	} else {
 		_, withPos := m.derive()
+		if m.forcePos {
+			withPos = true
+		}
 		for _, it := range items {
 			item := Item{text: util.ToChars([]byte(it.Text))}
 			item.text.Index = it.Index
@@ -329,10 +339,19 @@ func around(a []int32, i int) []int32 {
 	return a[lo:hi]
 }
 
+// corruptChunk is set when a chunk with an impossible item count is seen
+// (reported by the scenario as a violation, never a harness panic).
+var corruptChunk string
+
 func freezeChunks(chunks []*Chunk) []frozenItem {
 	var out []frozenItem
 	for _, c := range chunks {
-		for i := 0; i < c.count; i++ {
+		n := c.count
+		if n < 0 || n > chunkSize {
+			corruptChunk = fmt.Sprintf("chunk holds count=%d (capacity %d)", n, chunkSize)
+			n = clampInt(n, 0, chunkSize)
+		}
+		for i := 0; i < n; i++ {
 			out = append(out, frozenItem{c.items[i].Index(), c.items[i].text.ToString()})
 		}
 	}
